@@ -155,7 +155,7 @@ fn variants(rng: &mut Rng, k: u32) -> Vec<(&'static str, String)> {
         ("big-pipe", format!("gen 70000 {k} 4096 0 0 | relay 1000 | sink {k} 0 333")),
         // a writer that is certain to find the (real: 64 KiB) pipe full: the
         // reader takes 48 bytes at a time
-        ("big-pipe", format!("gen 200000 {k} 16384 0 0 | relay 48 | sink {k} 0 4096")),
+        ("big-pipe", format!("gen 120000 {k} 16384 0 0 | relay 48 | sink {k} 0 4096")),
         // two processes share one end of a pipe (and with it the O_NONBLOCK flag
         // that the shell sets temporarily); more data than any pipe buffers
         ("shared-pipe-end", format!("{{ recs A {} 512 & recs B 170 512; wait; }} | recsink 512; echo \"?=$?\"", 150 + k % 7)),
